@@ -53,3 +53,30 @@ Qed.
 Theorem clear_after_drain_strands :
   stuck (drun false d0 [SPut; SSet; SDispatcher; SDispatcher; SDispatcher; SPut; SSet; SDispatcher]) = true.
 Proof. reflexivity. Qed.
+
+(* ---------- generations ---------- *)
+Definition ginv (s : gstate) : bool :=
+  negb (g_overlap s) &&
+  match g_cb s, g_cur s with
+  | CbNone, CIdle | CbNone, CWait | CbCur, CInCb | CbStale, CWait => true
+  | _, _ => false
+  end.
+Definition all_gstates : list gstate :=
+  flat_map (fun c => flat_map (fun u => map (fun o => {| g_cb := c; g_cur := u; g_overlap := o |}) [false; true]) [CIdle; CWait; CInCb]) [CbNone; CbCur; CbStale].
+Lemma all_gstates_complete s : In s all_gstates.
+Proof. destruct s as [[] [] []]; cbn; tauto. Qed.
+Lemma ginv_step s a : ginv s = true -> ginv (gstep_fn true s a) = true.
+Proof.
+  intro H. assert (T : forallb (fun s0 => negb (ginv s0) || forallb (fun a0 => ginv (gstep_fn true s0 a0)) [GRestart; GCurrent; GStaleReturns]) all_gstates = true) by (vm_compute; reflexivity).
+  rewrite forallb_forall in T. specialize (T s (all_gstates_complete s)). rewrite H in T. cbn [negb orb] in T.
+  rewrite forallb_forall in T. apply T. destruct a; cbn; tauto.
+Qed.
+Theorem one_callback_at_a_time tr : g_overlap (grun true g0 tr) = false.
+Proof.
+  assert (I : ginv (grun true g0 tr) = true).
+  { unfold grun. generalize g0 (eq_refl : ginv g0 = true). induction tr as [|a r IH]; intros s Hs; cbn [fold_left]; [exact Hs|]. apply IH. apply ginv_step. exact Hs. }
+  unfold ginv in I. apply andb_prop in I as [I _]. apply negb_true_iff in I. exact I.
+Qed.
+(* without the wait: a callback of the new connection begins while the one that was left behind is still running *)
+Theorem no_wait_overlaps : g_overlap (grun false g0 [GCurrent; GRestart; GCurrent]) = true.
+Proof. reflexivity. Qed.
